@@ -101,7 +101,8 @@ def validate(run, events, tag, tier, shards=None):
     run.states += states
     run.transitions += len(events)
     run.events += ok
-    run.traces_validated += sum(1 for e in events if e["ev"] == "reset")
+    nres = sum(1 for e in events if e["ev"] == "reset")
+    run.traces_validated += nres if nres else ok       # episodes, or self-contained events when there are no episodes
     for e in events:
         if e["ev"] == "align" and e.get("ok"):
             s = {"ev": "align", "ctx": e["ctx"], "names": e["names"], "seqs": ["".join(map(chr, x))[:60] for x in e["seqs"]]}
